@@ -166,7 +166,26 @@ impl StepResult {
     }
 }
 
+/// reach measure: how often each instruction was stepped in this process (index = the instruction's number)
+pub static OP_STEPS: [std::sync::atomic::AtomicU64; 64] = [const { std::sync::atomic::AtomicU64::new(0) }; 64];
+
+pub const ALL_INSTRUCTIONS: [Instruction; 57] = [
+    Instruction::Invalid, Instruction::Put, Instruction::PutValue, Instruction::PushValue, Instruction::UpdateValue, Instruction::JumpTo,
+    Instruction::EndExpression, Instruction::Add, Instruction::Subtract, Instruction::Multiply, Instruction::Divide, Instruction::IntegerDivide,
+    Instruction::Power, Instruction::Opposite, Instruction::AbsoluteValue, Instruction::Remainder, Instruction::BitwiseNot, Instruction::BitwiseAnd,
+    Instruction::BitwiseOr, Instruction::BitwiseXor, Instruction::BitwiseShiftLeft, Instruction::BitwiseShiftRight, Instruction::And, Instruction::Or,
+    Instruction::Xor, Instruction::Not, Instruction::Tis, Instruction::JumpIfTrue, Instruction::JumpIfFalse, Instruction::TypeOf, Instruction::ApplyType,
+    Instruction::TypeEqual, Instruction::Equal, Instruction::NotEqual, Instruction::LessThan, Instruction::LessThanOrEqual, Instruction::GreaterThan,
+    Instruction::GreaterThanOrEqual, Instruction::MakePair, Instruction::MakeList, Instruction::Apply, Instruction::PartialApply, Instruction::EmptyApply,
+    Instruction::Reapply, Instruction::Access, Instruction::AccessLeftInternal, Instruction::AccessRightInternal, Instruction::AccessLengthInternal,
+    Instruction::Resolve, Instruction::StartSideEffect, Instruction::EndSideEffect, Instruction::MakeRange, Instruction::MakeStartExclusiveRange,
+    Instruction::MakeEndExclusiveRange, Instruction::MakeExclusiveRange, Instruction::Concat, Instruction::Invalid,
+];
+
 pub fn step<D: GD>(d: &mut D) -> StepResult {
+    if let Some((ins, _)) = d.get_instruction(d.get_instruction_cursor()) {
+        OP_STEPS[(ins as usize) & 63].fetch_add(1, std::sync::atomic::Ordering::Relaxed);
+    }
     match guarded(|| execute_current_instruction(d)) {
         Err(p) => StepResult::Panic(p),
         Ok(Err(e)) => StepResult::Err { unsupported: e.get_type() == ErrorType::UnsupportedOpTypes, msg: short_err(&format!("{:?}", e)) },
